@@ -170,7 +170,10 @@ func init() {
 				}
 				obs += ";" + m
 				// through the DNS engine
-				s, serr := filterlist.NewRuleStorage([]filterlist.RuleList{&filterlist.StringRuleList{ID: 7, RulesText: text + "\n"}})
+				// any list id (0 included: storage index 0 is the first line of list 0), the line first or after others
+				lid := []int{7, 0, 0, -1, 1, 2147483647, -2147483648}[len(text)%7]
+				pre := []string{"", "", "! comment\n", "0.0.0.0 unrelated.example\n"}[(len(text)/7)%4]
+				s, serr := filterlist.NewRuleStorage([]filterlist.RuleList{&filterlist.StringRuleList{ID: lid, RulesText: pre + text + "\n"}})
 				must(serr)
 				e := urlfilter.NewDNSEngine(s)
 				d := ""
